@@ -14,7 +14,7 @@ import (
 
 // cpause <rollover> <setup> <point> <A> <B> [<C>]
 //   setup: ops separated by ';' run sequentially first (same op syntax as A/B/C)
-//   op syntax: pub:<v1>,<v2> | cons:<off>:<max> | get:<off> | del:<o1>,<o2> | next | sync | gc
+//   op syntax: pub:<v1>,<v2> | cons:<off>:<max> | get:<off> | del:<o1>,<o2> | next | sync | gc | stat | gett:<ts> | getk:<letter> | consk:<letter>:<off>:<max>
 // A runs in its own goroutine and is held at the first hit of <point>; while it is held B (and C) run to
 // completion (or stay blocked until A resumes); then A resumes.  The recorded history must be linearizable.
 func parseConcOp(s string) cinput {
@@ -26,6 +26,12 @@ func parseConcOp(s string) cinput {
 		return cinput{op: "cons", off: atoi(p[1]), max: atoi(p[2])}
 	case "get":
 		return cinput{op: "get", off: atoi(p[1])}
+	case "gett":
+		return cinput{op: "gett", off: atoi(p[1])}
+	case "getk":
+		return cinput{op: "getk", key: p[1]}
+	case "consk":
+		return cinput{op: "consk", key: p[1], off: atoi(p[2]), max: atoi(p[3])}
 	case "del":
 		var offs []int64
 		for _, x := range strings.Split(p[1], ",") {
@@ -171,9 +177,9 @@ func outcomeOf(in cinput, out coutput) string {
 	switch in.op {
 	case "pub", "next", "sync":
 		return fmt.Sprintf("n:%d", out.next)
-	case "gc":
+	case "gc", "stat":
 		return "ok"
-	case "cons":
+	case "cons", "consk":
 		return fmt.Sprintf("n:%d:%s", out.next, strings.Join(out.msgs, ","))
 	default:
 		return "m:" + strings.Join(out.msgs, ",")
